@@ -787,13 +787,39 @@ func (e *SpecEnv) evalCall(x SCall) SV {
 		_, _, _, _, zdata, _ := ioHeaps(e.G)
 		return SV{Term: fmt.Sprintf("(select %s %s)", e.Cur.Heap(zdata), arg(0).Term), Typ: types.NewSlice(types.Typ[types.Byte])}
 	case "sbContent":
-		// sbContent(b): the text accumulated so far in the local strings.Builder b (ghost)
-		a0 := arg(0)
-		if a0.Loc != nil && a0.Loc.Path != "" {
-			// a builder that is a field of another object (w.output): same ghost key as the executor uses
-			return SV{Term: fmt.Sprintf("(select %s %s)", e.Cur.Heap(sbHeap(e.G)), interiorKey(a0.Loc.Base, a0.Loc.Path)), Typ: types.Typ[types.String]}
+		// sbContent(b): the text accumulated so far in the strings.Builder b (ghost)
+		return SV{Term: fmt.Sprintf("(select %s %s)", e.Cur.Heap(sbHeap(e.G)), e.sbKey(arg(0))), Typ: types.Typ[types.String]}
+	case "fieldsLen", "fieldsAt", "splitLen", "splitAt":
+		// the executor's symbols for strings.Fields(s) / strings.Split(s, sep): number of pieces, i-th piece
+		sym, n := "strings_Fields", 1
+		if strings.HasPrefix(x.Fn, "split") {
+			sym, n = "strings_Split", 2
 		}
-		return SV{Term: fmt.Sprintf("(select %s %s)", e.Cur.Heap(sbHeap(e.G)), e.refOf(a0)), Typ: types.Typ[types.String]}
+		lenF, atF := strListUFs(e.G, sym, n)
+		var ts []string
+		for i := 0; i < n; i++ {
+			ts = append(ts, arg(i).Term)
+		}
+		if strings.HasSuffix(x.Fn, "Len") {
+			return SV{Term: fmt.Sprintf("(%s %s)", lenF, strings.Join(ts, " ")), Typ: intT}
+		}
+		return SV{Term: fmt.Sprintf("(%s %s %s)", atF, strings.Join(ts, " "), arg(n).Term), Typ: types.Typ[types.String]}
+	case "reFindString":
+		// reFindString(pattern, s): the executor's symbol for regexp.MustCompile(pattern).FindString(s)
+		return SV{Term: fmt.Sprintf("(%s %s %s)", reFindUF(e.G), arg(0).Term, arg(1).Term), Typ: types.Typ[types.String]}
+	case "buildersUnchangedExcept":
+		// buildersUnchangedExcept(b1, b2, ...): every strings.Builder that existed at function entry, other than the
+		// listed ones, has the content it had at entry (the frame of the ghost builder contents; loop invariants)
+		if e.Old == nil {
+			e.fail("buildersUnchangedExcept() needs an entry state")
+		}
+		oe := e.clone()
+		oe.Cur = e.Old
+		var keys []string
+		for i := range x.Args {
+			keys = append(keys, oe.sbKey(oe.Eval(x.Args[i])))
+		}
+		return SV{Term: sbFrame(e.Old.Heap(sbHeap(e.G)), e.Cur.Heap(sbHeap(e.G)), e.Old.Next(), keys), Typ: boolT}
 	case "evCount":
 		// evCount("name"): number of events in the named ghost sequence
 		id, ok := x.Args[0].(SStrLit)
@@ -1026,6 +1052,15 @@ func (e *SpecEnv) evalCall(x SCall) SV {
 	}
 	e.fail("unknown spec function %s", x.Fn)
 	return SV{}
+}
+
+// sbKey: the ghost key of the strings.Builder v denotes (a first-class builder reference, or a builder that is a field
+// of another object: the same interior key the executor uses).
+func (e *SpecEnv) sbKey(v SV) string {
+	if v.Loc != nil && v.Loc.Path != "" {
+		return interiorKey(v.Loc.Base, v.Loc.Path)
+	}
+	return e.refOf(v)
 }
 
 func (e *SpecEnv) refOf(v SV) string {
